@@ -18,12 +18,13 @@ def run(tier):
         raise vlib.ToolError("as-is config did not violate Inv_SniffIsFunctionOfBody (spec drift)")
     rep.add_tlc(asis, "as-is (first frame decides even when blank): counterexample found, as expected (F14)")
     r3 = vlib.tlc("HttpStack", "MC_HttpStack.cfg", workers=4, timeout=300)
-    rep.add_tlc(r3, "the shipped HTTP layers in front of the service (ProxyGetRequest, HostFilter; absent / present, either order): "
+    rep.add_tlc(r3, "the shipped HTTP layers in front of the service (ProxyGetRequest, HostFilter; absent / present, either order) and the "
+                    "server's dispatch by upgrade headers and mode (both / http_only / ws_only): "
                     "one action per layer inwards and outwards; Inv_OnlyJsonPostReachesRpc, Inv_ProxyCallsMapped, "
-                    "Inv_RefusedRunsNothing, Inv_FilterAlwaysDecides, Inv_ProxiedAnswerIsBare, Inv_UnproxiedAnswerUntouched")
+                    "Inv_RefusedRunsNothing, Inv_ModeRespected, Inv_FilterAlwaysDecides, Inv_ProxiedAnswerIsBare, Inv_UnproxiedAnswerUntouched")
     if vlib.zero_coverage(r3, ["ProxyIn", "FilterIn", "Gate", "Rpc", "PassOut", "Deliver"]):
         raise vlib.ToolError("vacuity: a layer action of HttpStack was never taken")
-    if len(r3["replay"]) < 8000:
+    if len(r3["replay"]) < 29000:
         raise vlib.ToolError("too few stack cases: %d" % len(r3["replay"]))
     cases = r1["replay"] + r2["replay"] + r3["replay"]
     if len(cases) < 3000:
@@ -38,8 +39,9 @@ def run(tier):
                        "exchange is compared byte-for-byte (status, body, handler log) with the one-chunk exchange of the "
                        "concatenation and, where the concatenation's class is known, with the spec's answer; stack: every request of "
                        "4 methods x 15 path classes (10 registered paths by the kind of answer of the mapped method, query / "
-                       "trailing-slash / letter-case spellings, unregistered, root) x 3 hosts x 3 content types x 3 bodies against each "
-                       "of the 5 layer configurations, through the real ProxyGetRequestLayer / HostFilterLayer / TowerService: "
+                       "trailing-slash / letter-case spellings, unregistered, root) x 3 hosts x 3 content types x 3 bodies, and the same as a "
+                       "WebSocket handshake (complete / without a key), against each "
+                       "of the 5 layer configurations x 3 server modes (both, http_only, ws_only), through the real ProxyGetRequestLayer / HostFilterLayer / TowerService: "
                        "status, kind and content of the answer (bare result value, bare error object with code and data, "
                        "JSON-RPC envelope, refusal) and the exact handler log; non-trivial = refused "
                        "by the gate or a layer, more than one frame, or rewritten by the proxy")
